@@ -46,7 +46,7 @@ def exec_sm(scn):
     ftok = lex(text)
     # the lexer says "1.0" for meter? keep strings as the file has them
     rec = {"id": scn["id"] + "/read", "op": "read", "cls": f"sm.read.{scn['type']}", "exc": "", "file": ftok, "charts": [],
-           "set": {}, "hdr_title": scn.get("title", "Song"), "hdr_artist": scn.get("artist", "Art")}
+           "set": {}, "hdr_title": scn.get("title", "Song"), "hdr_artist": scn.get("artist", "Art"), "slack": 0}
     try:
         via = scn["variant"] % 4
         if via == 3:
@@ -121,3 +121,71 @@ def random_scenarios(n):
         out.append({"id": f"r{i}", "type": typ, "rows": rows, "objs": objs, "bpms": bpms,
                     "off": r.choice([0, -50000, 125000, 3300]), "variant": i, "second_chart": r.choice([None, "dance-single", "kb7-single"])})
     return out
+
+
+def _balanced(measures):
+    import re
+    open_ = {}
+    for m in measures:
+        for row in [re.sub(r"//.*", "", ln).strip() for ln in m.split("\n")]:
+            for c, ch in enumerate(row):
+                if ch in "24":
+                    open_[c] = True
+                elif ch == "3":
+                    open_[c] = False
+    return not any(open_.values())
+
+
+def bundled_scenarios(tier):
+    """the first K measures of every chart of the repository's bundled .sm maps without #STOPS"""
+    import glob
+    import os
+    import re
+    from harness.common import REPO
+    out = []
+    for f in sorted(glob.glob(os.path.join(REPO, "rsc", "maps", "sm", "*.sm"))):
+        with open(f, encoding="utf8") as fh:
+            text = fh.read()
+        if re.search(r"#STOPS:\s*[0-9]", text):
+            continue
+        for K in ((6,) if tier == "quick" else (4, 12, 30)):
+            pieces = []
+            for piece in text.split(";"):
+                if "#NOTES:" in piece:
+                    head, _, data = piece.rpartition(":")
+                    meas = data.split(",")
+                    kk = K
+                    # extend the prefix until every hold / roll head in it has its tail
+                    while kk < len(meas) and not _balanced(meas[:kk]):
+                        kk += 1
+                    data = ",".join(meas[:kk])
+                    piece = head + ":" + data + "\n"
+                elif "#BPMS:" in piece:
+                    # tempo changes beyond the kept measures are dropped as well (1869 of them in Caravan)
+                    pre, _, val = piece.partition("#BPMS:")
+                    pairs = [p for p in val.replace("\n", "").split(",") if p.strip() and float(p.split("=")[0]) < 4 * K + 8]
+                    piece = pre + "#BPMS:" + ",".join(pairs)
+                pieces.append(piece)
+            out.append({"id": f"b.{os.path.basename(f)}.{K}", "text": ";".join(pieces), "slack": 2 * K + 2})
+    return out
+
+
+def exec_bundled(scn):
+    from reamber.sm.SMMapSet import SMMapSet
+    ftok = lex(scn["text"])
+    title = next((h["val"] for h in ftok["hdr"] if h["tag"] == "TITLE"), "")
+    artist = next((h["val"] for h in ftok["hdr"] if h["tag"] == "ARTIST"), "")
+    rec = {"id": scn["id"] + "/read", "op": "read", "cls": "sm.read.bundled", "exc": "", "file": ftok, "charts": [],
+           "set": {}, "hdr_title": title, "hdr_artist": artist, "slack": scn["slack"]}
+    try:
+        ms = SMMapSet.read(scn["text"])
+        rec["charts"] = [proj_map(m) for m in ms.maps]
+        rec["set"] = proj_set(ms)
+    except ProjectionError as e:
+        rec["exc"] = "Projection:" + str(e)
+    except Exception as e:
+        rec["exc"] = exc_name(e)
+    for ch, fch in zip(rec["charts"], ftok["charts"]):
+        ch["radar"], fch["radar"] = _norm_nums(ch["radar"]), _norm_nums(fch["radar"])
+        # numeric meter: "11" in the file, 11 in memory
+    return [rec]
